@@ -23,11 +23,19 @@ map-based output ("info") serves the non-conforming behaviour "declared ID, nil 
 Step s0 (StepsMC: ShortSteps) has input and signal data objects with EXACTLY ONE property, in one of four shapes
 per session (struct-mapped string, map-based int, struct-mapped / map-based nested single-property object): the raw
 input class "vs" is a bare non-map value, which the schema accepts as shorthand for the object; the first call on
-s0 in a schedule decides the session's shape.  The orchestrator hands
+s0 in a schedule decides the session's shape.  Two further shapes have an OPTIONAL single property with a default:
+there the empty map (and a typed nil map) is accepted, nil is not.  nil and typed nils are among the rejected raw
+forms of every scope.
+A handler behaviour is a pair (output ID class: declared / second declared / undeclared [unknown name, other letter
+case, empty]) x (data class: conforming / conforming with a different serialized form / non-conforming / nil [untyped,
+typed nil pointer, typed nil map]) - Steps.tla: BehTab.  An undeclared ID must give InvalidOutputError whatever the
+data; ConstraintError, which the SDK returns for any violated constraint, does not identify a failure.
+The orchestrator hands
 the concrete forms of each raw-input class and handler behaviour out round-robin, so every form in the harness's
 tables is exercised.
 """
 import os, json, re
+import concurrent.futures
 from vlib import common
 
 SPECS = ["StepsMC", "StepsTrace"]
@@ -276,7 +284,8 @@ def run(ctx):
     thorough = ctx.tier == "thorough"
     ctx.rule = ("a vector is one complete gate-level schedule of StepsMC (terminal state): a call vector (step or "
                 "signal x known/unknown step and signal IDs x run x accepted/rejected raw input x handler behaviour "
-                "ok/second output/undeclared ID/non-conforming data x step with/without initializer x input scope "
+                "(output ID declared/second declared/undeclared x data conforming/non-conforming/nil) x step with/without "
+                "initializer x input scope "
                 "struct-mapped/map-based, the map-based one also with raw inputs that omit a defaulted property or use "
                 "a representation accepted by lenient conversion, and with handler output values whose in-memory form "
                 "differs from the serialized form of its map-based output scope; one step with single-property input "
@@ -291,8 +300,12 @@ def run(ctx):
         if thorough else [("steps_quick.cfg", "steps_quick_full.cfg")]
     nvec = 0
     for i, (normal, full) in enumerate(cfgs):
-        # every interleaving of every stage: the properties on the model
-        model_check(ctx, full)
+        # every interleaving of every stage: the properties on the model (quick tier: checked while the schedules
+        # are exported and replayed; its verdict is collected below, before anything is concluded)
+        pool = concurrent.futures.ThreadPoolExecutor(1)
+        full_run = pool.submit(model_check, ctx, full)
+        if thorough:
+            full_run.result()
         # every gate-normal-form schedule: exported and replayed into the real code
         vec = os.path.join(ctx.tmp, "steps-vectors-%d.ndjson" % i)
         r = model_check(ctx, normal, vec)
@@ -303,6 +316,8 @@ def run(ctx):
         cases, results = run_driver(ctx, vec + ".cases", cases)
         for c in cases[:1] + cases[len(cases) // 2:len(cases) // 2 + 1] + cases[-1:]:
             ctx.sample(dict(calls=c["calls"], hist=["%s(%d)" % (h["ev"], h["p"]) for h in c["hist"]], res=c["res"]))
+        full_run.result()      # raises what the model check of all interleavings raised
+        pool.shutdown()
         consume(ctx, cases, results, counts)
         nvec += len(cases)
     ctx.traces += nvec
